@@ -324,6 +324,25 @@ func runC07(ctx *core.Ctx) {
 		if rb == nil {
 			ctx.Bad("A3", "lockedfile.Transform#rollback", tf.Pos(), "no deferred roll-back that rewrites old at offset 0 when the result error is non-nil")
 		} else {
+			// the error the roll-back looks at must be the function's result: every return stores its
+			// value into the very cell the closure reads (named result); a separate local never sees
+			// the errors of the failing steps
+			mc := rb.Call.Value.(*ssa.MakeClosure)
+			fn := mc.Fn.(*ssa.Function)
+			var cell ssa.Value
+			for k, fv := range fn.FreeVars {
+				if fv.Name() == "err" {
+					cell = mc.Bindings[k]
+				}
+			}
+			okCell := cell != nil
+			for _, r := range g.Returns() {
+				u, ok := r.Results[0].(*ssa.UnOp)
+				if !ok || u.X != cell {
+					okCell = false
+				}
+			}
+			ctx.Check(okCell, "A3", "lockedfile.Transform#rollback-sees-result", rb.Pos(), "the roll-back tests the function's own result error: every return passes its value through the variable the deferred function reads")
 			ok := len(overwrites) > 0
 			for _, o := range overwrites {
 				if !g.Dominates(rb, o) {
